@@ -51,3 +51,8 @@ static parsec_key_t ref_make_key(const REF_TP_T *tp, int c, const parsec_assignm
     if (c == 0) return __jdf2c_make_key_T((const parsec_taskpool_t *)tp, l);
     return __jdf2c_make_key_U((const parsec_taskpool_t *)tp, l);
 }
+
+/* OUT side, final write-back:  A -> descA(i, j)  (unguarded, both classes) */
+static int ref_final_write(const int *g, int c, const int *p, int f, int *co, int *which)
+{ (void)g; (void)c; (void)f; co[0] = p[0]; co[1] = p[1]; *which = 0; return 1; }
+static parsec_data_collection_t *ref_collection(REF_TP_T *tp, int which) { (void)which; return tp->super._g_descA; }
